@@ -145,6 +145,14 @@ def monitor_points(events):
             want = ps.brute_mask(P)
             if want != ev["mask"]:
                 out.append({"signature": "c19:pareto-mask", "what": f"pareto_efficient marks {ev['mask']} but the non-dominated points are {want}", "detail": ev})
+        elif ev["ev"] == "pareto-error":
+            out.append({"signature": "c19:pareto-raised", "what": f"pareto_efficient raised {ev['err']}", "detail": ev})
+        elif ev["ev"] in ("nds-error", "priority-error"):
+            mx = ev.get("max_items", ev.get("max_num_samples"))
+            # the only documented-by-code failure: indices[-1] on an empty list (max_items given, nothing sorted)
+            if not (mx is not None and (mx == 0 or len(P) == 0) and ev["err"] == "index-error"):
+                out.append({"signature": "c19:sort-raised", "what":
+                            f"{ev['ev']}: {ev['err']} for {len(P)} points, dim={ev['dim']}, max_items={mx}", "detail": ev})
         elif ev["ev"] == "nds":
             n = len(P)
             lay = ps.brute_layers(P)
@@ -221,6 +229,9 @@ def monitor_moasha(spec, t):
     nds = spec["priority"]["kind"] == "nds"
     mxs = spec["priority"].get("max_num_samples") if nds else None
     for ev in t["events"]:
+        if ev["ev"] in ("result-error", "complete-error") and not (ev["err"] == "key-error" and ev.get("untracked")):
+            out.append({"signature": "c19:moasha-raised", "what":
+                        f"on_trial_{ev['ev'][:-6]} raised {ev['err']} for trial {ev['trial']} iter {ev['iter']}", "detail": ev})
         if ev["ev"] in ("add", "remove") and ev.get("rungs_changed"):
             out.append({"signature": "c19:moasha-rung-corrupted", "what": f"rungs changed by on_trial_{ev['ev']}", "detail": ev})
         if ev["ev"] not in ("result", "complete"):
@@ -316,11 +327,15 @@ def run_f13():
     from syne_tune.optimizer.schedulers.multiobjective.multiobjective_priority import NonDominatedPriority
 
     P = [[3.0, 3.0], [1.0, 1.0], [4.0, 4.0], [2.0, 2.0]]
-    with ps.EpsRecorder() as rec:
-        p = [int(v) for v in NonDominatedPriority()(np.array(P))]
-        tape = rec.take()
-        b = _Bracket(1, 9, 3, 0, NonDominatedPriority())
-        acts = [b.on_result(i, 1, {"a": P[i][0], "b": P[i][1]}) for i in range(4)]
+    try:
+        with ps.EpsRecorder() as rec:
+            p = [int(v) for v in NonDominatedPriority()(np.array(P))]
+            tape = rec.take()
+            b = _Bracket(1, 9, 3, 0, NonDominatedPriority())
+            acts = [b.on_result(i, 1, {"a": P[i][0], "b": P[i][1]}) for i in range(4)]
+    except Exception as e:  # noqa
+        return {"lines": [], "monitor": [{"signature": "c19:sort-raised", "what": f"F13 witness raised {type(e).__name__}: {e}", "detail": None}],
+                "meta": {"hist": {"f13_witness": 1}, "nontrivial": True}}
     lines = [({"stream": "pareto"}, None),
              ({"op": "priority", "X": ps.rows(P), "max_num_samples": None, "eps": tape}, {"priorities": p, "contract": True})]
     mon = monitor_points([{"ev": "priority", "P": P, "dim": 0, "max_num_samples": None, "priorities": p}])
